@@ -35,6 +35,19 @@ def eLoop (n : Nat) : Nat → EIt → List Step
 
 def enumerateSteps (n : Nat) : List Step := eLoop n (n + 1) eBegin
 
+/-- `iterator operator++(int)`: returns the old iterator, advances the wrapped iterator *and* the index. -/
+def ePostInc (a : EIt) : EIt × EIt := (a, eNext a)
+
+/-- A hand-written loop `for (it = begin(); it != end(); it++)`. -/
+def eLoopPost (n : Nat) : Nat → EIt → List Step
+  | 0, _ => [.outOfRange]
+  | fuel + 1, it =>
+    if eNe it (eEnd n) then
+      (if it.pos < n then Step.visit it.index it.pos else .outOfRange) :: eLoopPost n fuel (ePostInc it).2
+    else []
+
+def enumeratePostSteps (n : Nat) : List Step := eLoopPost n (n + 1) eBegin
+
 /-- `std::reverse_iterator` over `[begin, end)`: `base` counts down, `*it` is element `base - 1`. -/
 def rLoop (n : Nat) : Nat → Nat → List Step
   | 0, _ => [.outOfRange]
